@@ -13,7 +13,7 @@ import glob
 for fn in sorted(glob.glob(os.path.join(VERIF, "sa", "claims.d", "*.json"))):
     with open(fn) as f:
         for k, v in json.load(f).items():
-            claims.CLAIMS.setdefault(k, v)
+            claims.CLAIMS[k] = v        # a claims.d file (maintained next to its rule module) overrides claims.py
             if "note" in v and not v["note"].startswith("Trusted base"):
                 v["note"] = claims.TB + v["note"]
 
